@@ -87,6 +87,15 @@ CLAIMED = {
    note="S3/SFTP/GCS backends are not exercised offline; zstd and SHA are executed leaves.",
    technique="TLA+ reference model checked by TLC; trace validation of corruption probes on real backends",
    design="4/C03"),
+ "C04": dict(
+   text="IndexCodec.tla defines the caibx layout (Encode) and the reader as a state machine with its reject transitions (Decode) over field tokens; TLC "
+        "proves round trip, rejection of every strict prefix, of oversize chunks and of digest mismatch, and canonicity under every single-token "
+        "substitution for all indexes with <= 3-4 chunks. Files written by the real WriteTo are tokenised independently and must equal Encode; valid, "
+        "truncated, substituted and digest-mismatched files go through IndexFromReader (incl. fragmenting readers), LocalIndexStore, RemoteHTTPIndex + "
+        "real handler and PUT, and verdict and table must be Decode's; casync fixtures must re-encode byte-identically.",
+   note="S3/SFTP index stores are not exercised (same IndexFromReader). The tokeniser in the driver is trusted.",
+   technique="TLA+ spec of the format with theorems checked by TLC; trace validation of written and read files",
+   design="4/C04"),
 }
 
 NOT_YET = "check not built yet in this round (planned in DESIGN.md section 4)"
